@@ -96,6 +96,8 @@ func scenExec(out *scenOut, r *rng, thorough bool) {
 		execBetweenCmds = nil
 	}
 	execNilInput(out)
+	execCallbackWhileLoopBusy(out, false)
+	execCallbackWhileLoopBusy(out, true)
 	execReleaseFails(out, "quit-msg")
 	execAfterEOF(out)
 	execProcessReal(out)
@@ -949,5 +951,41 @@ func execProcessReal(out *scenOut) {
 			run.p.Kill()
 			run.wait(3 * time.Second)
 		}
+	}
+}
+
+// execCallbackWhileLoopBusy: the event loop is busy for 0.7 s right after an Exec's command has
+// returned (the Update that follows takes that long): the callback's message waits for the loop and
+// is delivered exactly once, for a succeeding and for a failing command (C17).
+func execCallbackWhileLoopBusy(out *scenOut, fail bool) {
+	ctl := newRecCtl()
+	fe := &fakeExec{run: func(f *fakeExec) error {
+		if fail {
+			return errExecFailed
+		}
+		return nil
+	}}
+	var sawErr atomic.Value
+	ctl.onUpdate = func(m tea.Msg, v int) tea.Cmd {
+		name := msgName(m)
+		switch {
+		case name == "u9.0":
+			return tea.Exec(fe, func(err error) tea.Msg { sawErr.Store(fmt.Sprint(err)); return execDoneMsg{Tag: "busy", Err: err} })
+		case name == "exec":
+			time.Sleep(700 * time.Millisecond) // the loop is busy while the callback's message is on its way
+		}
+		return nil
+	}
+	run := startProgram(ctl, nil, tea.WithInput(nil), tea.WithoutSignalHandler())
+	desc := fmt.Sprintf("Exec (command fails: %t); the Update that follows the Exec takes 0.7 s", fail)
+	waitFor(2*time.Second, func() bool { return ctl.log.has("view-exit", "") })
+	run.p.Send(userMsg{9, 0})
+	ok := waitFor(4*time.Second, func() bool { return ctl.log.has("update-exit", "execdone:busy") })
+	time.Sleep(50 * time.Millisecond)
+	run.p.Quit()
+	run.wait(4 * time.Second)
+	out.record(fmt.Sprintf("exec-callback-while-loop-busy/%t", fail), desc)
+	if n := ctl.log.count("update-enter", "execdone:busy"); !ok || n != 1 {
+		out.fail(finding{Property: "C17", Class: "new", What: "the callback's message was not delivered exactly once (the event loop was busy when the command returned)", Input: desc, Expected: "1", Observed: fmt.Sprint(n)})
 	}
 }
